@@ -46,3 +46,41 @@ package algo
 //@   requires s != nil && duplex != nil && allocated(cellof(duplex))
 //@   modifies all(ghost:set.V)
 //@   ensures forall y uint64 :: (y in viewof(duplex)) == (old(y in viewof(duplex)) != (y in reachSet(s, node, direction) && y != node))
+
+// ---- the memo of the component reach ----------------------------------------------------------------------------
+//
+// One cache per direction. What the DFS stores and what it reads back are kept apart by direction, and a cursor whose
+// reach is incomplete (it skipped a component another branch of the same DFS had already visited) is never stored
+// unless it is the root, whose reach doubles as the visited set. The caches are seen through the Cache interface: ghost
+// counters of the Put and Get calls made on each, and the key of the last Put (what a cache does with an entry is C16;
+// which set is stored under the key - the cursor's own or a copy - is left open here and checked by the stand-in).
+
+//@ import cache "github.com/specterops/dawgs/cache"
+//@ ghost comp cputs int
+//@ ghost comp cgets int
+//@ ghost comp clastKey uint64
+
+//@ iface func (c cache.Cache[K, V]) Put(key K, value V)
+//@   modifies cputs[c], clastKey[c]
+//@   ensures cputs[c] == old(cputs[c]) + 1 && clastKey[c] == key
+//@ iface func (c cache.Cache[K, V]) Get(key K) (V, bool)
+//@   modifies cgets[c]
+//@   ensures cgets[c] == old(cgets[c]) + 1
+
+//@ func (s *ReachabilityCache) cacheComponentReach(cursor *reachCursor, direction graph.Direction)
+//@   requires s != nil && cursor != nil && s.inboundComponentReach != nil && s.outboundComponentReach != nil && s.inboundComponentReach != s.outboundComponentReach
+//@   modifies cputs[s.inboundComponentReach], cputs[s.outboundComponentReach], clastKey[s.inboundComponentReach], clastKey[s.outboundComponentReach]
+//@   ensures otherDirectionIn: direction != graph.DirectionInbound ==> cputs[s.inboundComponentReach] == old(cputs[s.inboundComponentReach])
+//@   ensures otherDirectionOut: direction != graph.DirectionOutbound ==> cputs[s.outboundComponentReach] == old(cputs[s.outboundComponentReach])
+//@   ensures incompleteNotStored: cursor.incomplete && cursor.ancestor != nil ==> cputs[s.inboundComponentReach] == old(cputs[s.inboundComponentReach]) && cputs[s.outboundComponentReach] == old(cputs[s.outboundComponentReach])
+//@   ensures storedIn: !(cursor.incomplete && cursor.ancestor != nil) && direction == graph.DirectionInbound ==> cputs[s.inboundComponentReach] == old(cputs[s.inboundComponentReach]) + 1 && clastKey[s.inboundComponentReach] == cursor.component
+//@   ensures storedOut: !(cursor.incomplete && cursor.ancestor != nil) && direction == graph.DirectionOutbound ==> cputs[s.outboundComponentReach] == old(cputs[s.outboundComponentReach]) + 1 && clastKey[s.outboundComponentReach] == cursor.component
+
+//@ func (s *ReachabilityCache) cachedComponentReach(component uint64, direction graph.Direction) (cardinality.Duplex[uint64], bool)
+//@   requires s != nil && s.inboundComponentReach != nil && s.outboundComponentReach != nil && s.inboundComponentReach != s.outboundComponentReach
+//@   modifies cgets[s.inboundComponentReach], cgets[s.outboundComponentReach]
+//@   ensures otherDirectionIn: direction != graph.DirectionInbound ==> cgets[s.inboundComponentReach] == old(cgets[s.inboundComponentReach])
+//@   ensures otherDirectionOut: direction != graph.DirectionOutbound ==> cgets[s.outboundComponentReach] == old(cgets[s.outboundComponentReach])
+//@   ensures askedIn: direction == graph.DirectionInbound ==> cgets[s.inboundComponentReach] == old(cgets[s.inboundComponentReach]) + 1
+//@   ensures askedOut: direction == graph.DirectionOutbound ==> cgets[s.outboundComponentReach] == old(cgets[s.outboundComponentReach]) + 1
+//@   ensures neither: direction != graph.DirectionInbound && direction != graph.DirectionOutbound ==> !result.1 && result.0 == nil
